@@ -65,9 +65,11 @@ CHECKS["C03"] = dict(
     text="TLC checks on every table of the catalogues (17 x 9 x 9 definitions) and every invocation line that the "
          "reference expansion terminates within its fuel and is stable under re-expansion; every well-formed case is "
          "expanded by the real MacroExpander with the table given by #define directives and by -D strings and compared "
-         "token by token (stringification modulo white space), and through the truth of `#if INV == k` when the result "
-         "is one number; -DNAME is checked to behave as #define NAME 1; the reference agrees with gcc -E on the sampled "
-         "cases (disagreement above 3% aborts with exit 2).",
+         "token by token (token boundaries; string literals character by character), after a redefinition of one macro, "
+         "after re-evaluating the same parsed #define nodes for a second platform, and through the truth of `#if INV == k` "
+         "(one number) / `#if INV + 1 == 1` (expansion to nothing) both on a Platform object and through finder.find with "
+         "the table as command-line definitions; -DNAME is checked to behave as #define NAME 1; the reference agrees with "
+         "gcc -E (tokenised) on the sampled cases (disagreement above 3% aborts with exit 2).",
     design="3/C03")
 
 CHECKS["C05"] = dict(
